@@ -4,6 +4,7 @@
 -/
 import YV.Proofs.XEval
 import YV.Proofs.XCmp
+import YV.Proofs.XSpec
 import YV.Spec.XSem
 import YV.Model.XTables
 import YV.Gen.XPath
@@ -19,6 +20,19 @@ theorem C01_machine_eq_tree (env : Env) (e : Expr) (hw : WellFormed e) :
   cases h : evalM env e with
   | error x => simp
   | ok v => simp [exec, step, pop]
+
+/-- **C01 (machine = XPath 1.0).** For every well-formed expression tree — any nesting depth — over numbers, literals,
+    data operands that are absent or single-valued, unary minus, the thirteen binary operators and the core
+    functions boolean not true false number string ceiling floor concat contains starts-with string-length
+    normalize-space substring-before substring-after translate last position, the compiled program runs without
+    error and stores the value the XPath 1.0 specification (`XS.eval`: §3.4 comparisons, §3.5 arithmetic in
+    binary64, §4 conversions and function definitions) gives.  (`eval true`: the variant that reads the spelled
+    infinities, see C01_number_of_string.  round() and substring() are outside `PureX`: their IEEE formulation
+    against the exact one is compared by the streams; multi-valued leaf-lists: C01_compare / C01_existential.) -/
+theorem C01_machine_is_xpath (env : Env) (henv : SimpleEnv env) (e : Expr) (hw : WellFormed e) (hp : PureX e) :
+    ∃ d, run env (compile e ++ [.store]) = .ok (some d) ∧ eval true env e = some (ofDatum d) := by
+  obtain ⟨d, h1, _, h3⟩ := evalM_spec env henv e hw hp
+  exact ⟨d, by rw [C01_machine_eq_tree env e hw, h1]; rfl, h3⟩
 
 /-- the function table of the source (names, arities, argument kinds, return kinds) is the one the
     model's `Fn.sig` and `WellFormed` range over — regenerated from xpath/symbol.go on every run -/
@@ -60,5 +74,18 @@ example : X.compare .eq (.slice ["a".toList, "b".toList]) (.lit "b".toList) = .o
 /-- non-vacuity: a nested, well-formed expression -/
 example : WellFormed (.call .substring [.lit "12345".toList, .bin .div (.num SF.one) (.num SF.zero), .neg (.env 0)]) := by
   simp [WellFormed, WellFormedList, Fn.sig]
+
+/-- non-vacuity of `PureX` / `SimpleEnv`: translate(concat(x, 'b'), 'ab', 'AB') = 'AB' and not(-(1 div 0) < x) over
+    an environment with an absent node, a leaf and a one-entry leaf-list -/
+example : PureX (.bin .and (.call .not [.bin .lt (.neg (.bin .div (.num SF.one) (.num SF.zero))) (.env 1)])
+    (.bin .eq (.call .translate [.call .concat [.env 2, .lit "b".toList], .lit "ab".toList, .lit "AB".toList]) (.lit "AB".toList))) := by
+  simp [PureX, PureXs, pureFn]
+example : SimpleEnv (fun id => match id with | 0 => .emptyNodeset | 1 => .lit "7".toList | 2 => .slice ["a".toList] | _ => .num SF.one) := by
+  intro id
+  match id with
+  | 0 => trivial
+  | 1 => trivial
+  | 2 => simp [Simple]
+  | _ + 3 => trivial
 
 end YV.C01
